@@ -851,6 +851,20 @@ func init() {
 			return StringV{s: s.lines[s.pos]}
 		},
 		"(*bufio.Scanner).Err": func(ex *Exec, fn *ssa.Function, a []Value) Value { return IfaceV{} },
+		"(*strings.Builder).copyCheck": func(ex *Exec, fn *ssa.Function, a []Value) Value { return nil },
+		"(*strings.Builder).String": func(ex *Exec, fn *ssa.Function, a []Value) Value {
+			l := a[0].(*Loc)
+			// struct { addr *Builder; buf []byte }
+			buf, ok := ex.load(l.kids[len(l.kids)-1]).(SliceV)
+			if !ok {
+				ex.unsupported("strings.Builder layout")
+			}
+			bs := make([]*Term, buf.len)
+			for k := 0; k < buf.len; k++ {
+				bs[k] = ex.load(ex.kid(buf.arr, buf.off+k)).(*Term)
+			}
+			return ex.mkString(bs)
+		},
 		"maps.Clone": func(ex *Exec, fn *ssa.Function, a []Value) Value {
 			m, _ := a[0].(*MapObj)
 			if m == nil {
